@@ -360,7 +360,17 @@ func c05rowPlacement(c *Ctx, r *Result, rule string) {
 		n++
 		cons := fmt.Sprintf("%s#copy-into-nominal-buffer-%d", c.Name(fn), n)
 		if low != nil && dataParamsOpt(low, false)[nominal] {
-			r.Hold(rule, cons, c.InstrPos(call), "the destination offset is computed from the nominal chunk dimensions")
+			// ... and from nothing else: the position of a row in the nominal chunk does not depend on how much of the chunk is real
+			var actualP *ssa.Parameter
+			for _, p := range fn.Params {
+				if p.Name() == "actual" {
+					actualP = p
+				}
+			}
+			if actualP == nil && len(fn.Params) >= 2 {
+				actualP = fn.Params[1]
+			}
+			r.Check(actualP == nil || !dataParamsOpt(low, false)[actualP], rule, cons, c.InstrPos(call), "the destination offset is computed from the nominal chunk dimensions and does not depend on the clipped extents (a stride taken from the clipped shape puts every row after the first plane at the wrong place)")
 			return
 		}
 		// a bulk copy is right only when nothing but the slowest dimension is clipped: one dimension, or a flag that a loop
